@@ -86,6 +86,9 @@ def run(ctx):
     if not q:
         ctx.tlc("MC_DocComment", "MC_DocComment_links", replay="request", coverage=False)
         ctx.tlc("MC_DocComment", "MC_DocComment_dedent2", replay="request", coverage=False)
+    # every legal attribute argument list (MC_AttrArgs: compress / slicedFormat / deprecated / allow / foreign x elements)
+    os.environ["VERIF_REQUEST_SAMPLE"] = "4" if q else "1"
+    ctx.tlc("MC_AttrArgs", "MC_AttrArgs", replay="request", coverage=False)
     os.environ["VERIF_REQUEST_SAMPLE"] = "40" if q else "4"
     ctx.tlc("MC_Rules", "MC_Rules_enums_quick", replay="request", coverage=False)
     ctx.tlc("MC_Rules", "MC_Rules_members_quick", replay="request", coverage=False)
